@@ -512,6 +512,17 @@ def shard(args):
                                   '--arithmetic'], r.randint(1, 5))
             if r.random() < 0.15:
                 opts += ['-v']
+            # diagnostic options: they only add output, the run must go on
+            # as without them
+            c = r.random()
+            if c < 0.08:
+                opts += ['--profile']
+            elif c < 0.16:
+                opts += ['--dump-diffs']
+            elif c < 0.2:
+                opts += ['-q']
+            elif c < 0.24:
+                opts += ['--check-loops']
             entry = 'bin' if i % 2 == 0 else 'module'
             sig = None
             if i % 11 == 10:
